@@ -8,6 +8,7 @@ import (
 	"fmt"
 	"math/rand"
 	"os"
+	"strings"
 	"sync"
 	"time"
 
@@ -248,6 +249,16 @@ func main() {
 		}})
 	}
 
+	if only := os.Getenv("RACE_ONLY"); only != "" { // development aid: keep the tasks whose name contains the string
+		var keep []task
+		for _, t := range tasks {
+			if strings.Contains(t.name, only) {
+				keep = append(keep, t)
+			}
+		}
+		tasks = keep
+	}
+
 	// sequential reference
 	want := make([][][]byte, len(tasks))
 	for t := range tasks {
@@ -256,31 +267,36 @@ func main() {
 			want[t][i] = tasks[t].run(i)
 		}
 	}
-	// concurrent run: every goroutine performs every operation of every task on the shared instances
-	var wg sync.WaitGroup
+	// concurrent run, one shared instance at a time: all goroutines hammer the same task together (accesses to one
+	// object stay close in time, which is what the race detector's bounded history needs), every goroutine walking
+	// the inputs from its own offset
 	var mu sync.Mutex
 	bad := 0
-	for g := 0; g < *G; g++ {
-		wg.Add(1)
-		go func(g int) {
-			defer wg.Done()
-			for i := 0; i < *N; i++ {
-				for t := range tasks {
+	for t := range tasks {
+		var wg sync.WaitGroup
+		start := make(chan struct{})
+		for g := 0; g < *G; g++ {
+			wg.Add(1)
+			go func(g int) {
+				defer wg.Done()
+				<-start
+				for i := 0; i < *N; i++ {
 					j := (i + g*7) % *N
-					got := tasks[(t+g)%len(tasks)].run(j)
-					if !bytes.Equal(got, want[(t+g)%len(tasks)][j]) {
+					got := tasks[t].run(j)
+					if !bytes.Equal(got, want[t][j]) {
 						mu.Lock()
 						bad++
 						if bad < 5 {
-							fmt.Printf("MISMATCH task=%s input=%d\n", tasks[(t+g)%len(tasks)].name, j)
+							fmt.Printf("MISMATCH task=%s input=%d\n", tasks[t].name, j)
 						}
 						mu.Unlock()
 					}
 				}
-			}
-		}(g)
+			}(g)
+		}
+		close(start)
+		wg.Wait()
 	}
-	wg.Wait()
 	fmt.Printf("tasks=%d goroutines=%d ops_per_goroutine=%d total_ops=%d mismatches=%d\n", len(tasks), *G, *N*len(tasks), *G**N*len(tasks), bad)
 	if bad+coldBad > 0 {
 		os.Exit(1)
